@@ -11,6 +11,7 @@ import (
 	"sort"
 	"strings"
 	"testing"
+	"unicode"
 	"time"
 )
 
@@ -42,6 +43,23 @@ func vReflow(r *rand.Rand, text string, width int, tabs, crlf bool) string {
 	}
 	sb.WriteString("\n")
 	return sb.String()
+}
+
+// vOwnNorm: lower case, everything that is not a letter or digit becomes a blank,
+// runs of blanks collapse.
+func vOwnNorm(s string) string {
+	var sb strings.Builder
+	sp := true
+	for _, r := range strings.ToLower(s) {
+		if unicode.IsLetter(r) || unicode.IsDigit(r) {
+			sb.WriteRune(r)
+			sp = false
+		} else if !sp {
+			sb.WriteByte(' ')
+			sp = true
+		}
+	}
+	return strings.TrimSpace(sb.String())
 }
 
 func vDecorate(text, prefix string) string {
@@ -327,7 +345,9 @@ func TestVerifC16(t *testing.T) {
 				// another corpus file with the identical normalised text may answer
 				a, _ := ReadLicenseFile(m.Name + ".txt")
 				a2, _ := ReadLicenseFile(m.Name + ".header.txt")
-				if vNormLicense(string(a)) == vNormLicense(string(raw)) || vNormLicense(string(a2)) == vNormLicense(string(raw)) {
+				// "identical" by the harness' own reading (case, punctuation and white space
+				// aside, digits kept) - not by the package's normalisers, which are under test
+				if (len(a) > 0 && vOwnNorm(string(a)) == vOwnNorm(string(raw))) || (len(a2) > 0 && vOwnNorm(string(a2)) == vOwnNorm(string(raw))) {
 					cs.nontrivial(cd.file, cd.variant)
 					return
 				}
